@@ -194,15 +194,19 @@ def mismatch_diffs(m):
             if not e.get('outcome'):
                 return [('load.' + rec['outcome'], 'ok|err', rec['outcome'])]
             return [('load.invariants', 'StateOK(loaded store)', 'violated')]
-        if rec['ev'] == 'ConcRun':
+        if rec['ev'] in ('ConcRun', 'ConcFree'):
             d = []
             if not e.get('conforms'):
-                d.append(('conc.conformance', e.get('threads'), (g or {}).get('threads')))
+                d.append(('conc.conformance', e.get('threads'), dict(threads=(g or {}).get('threads'), files=(g or {}).get('files'), leftovers=(g or {}).get('leftovers'))))
             if not e.get('sequential'):
-                got = [t['forms'] for t in e.get('threads', [])]
+                got = [t['forms'] for t in (e.get('threads') or (g or {}).get('threads', []))]
                 for i, (al, gt) in enumerate(zip(e.get('alone', []), got)):
                     if al != gt:
                         d.append((f'conc.sequential[{rec["a"]["ops"][i]["op"]}]', al, gt))
+                gf = (g or {}).get('files', [])
+                for i, (ef, f) in enumerate(zip(e.get('seqfiles', []), gf)):
+                    if ef != f:
+                        d.append((f'conc.file[{f}]', ef, f))
             return d or [('conc', 'ok', 'rejected')]
         if rec['ev'] == 'Query':
             if not e.get('ok'):
@@ -347,7 +351,7 @@ def attribute(m, diffs):
 
 READONLY_OWNER = {'Lookup': 'C03', 'TextSel': 'C04', 'AnnTextOf': 'C04', 'OffsetReport': 'C04', 'Utf8Byte': 'C12',
                   'ByteToChar': 'C12', 'TextOp': 'C07', 'TestRelation': 'C13', 'RelatedText': 'C06',
-                  'TestRelationRow': 'C13', 'RelatedRow': 'C06', 'Validate': 'C18', 'WebAnno': 'C17', 'Parse': 'C09', 'Query': 'C08', 'ConcRun': 'C20', 'Load': 'C19', 'FindData': 'C10'}
+                  'TestRelationRow': 'C13', 'RelatedRow': 'C06', 'Validate': 'C18', 'WebAnno': 'C17', 'Parse': 'C09', 'Query': 'C08', 'ConcRun': 'C20', 'ConcFree': 'C20', 'Load': 'C19', 'FindData': 'C10'}
 
 
 def _has_offset(t):
@@ -384,7 +388,7 @@ def arg_features(rec):
         f.append('via=%s,set=%s,key=%s,op=%s,v=%s' % (a['via'], 'y' if a['set'] else 'n', 'y' if a['key'] else 'n', a['op'], a['v']['t']))
     elif ev == 'Load':
         f.append('%s,%s,%s,arg=%s' % (a['format'], a['part'], a['op'], a['arg']))
-    elif ev == 'ConcRun':
+    elif ev in ('ConcRun', 'ConcFree'):
         f.append('ops=' + '+'.join(o['op'] for o in a['ops']))
         f.append('members=' + '+'.join(m['kind'] + ('S' if m['standoff'] else '') + ('C' if m['changed'] else '') for m in a['shape']['members']))
     elif ev == 'Query':
@@ -439,7 +443,7 @@ def fingerprint(m, diffs):
         return '|'.join(['FindData', 'got=' + rec['outcome'], ','.join(paths), ','.join(arg_features(rec))])
     if exp.get('readonly') and rec['ev'] == 'Load':
         return '|'.join(['Load', 'got=' + rec['outcome'], ','.join(paths), ','.join(arg_features(rec))])
-    if exp.get('readonly') and rec['ev'] == 'ConcRun':
+    if exp.get('readonly') and rec['ev'] in ('ConcRun', 'ConcFree'):
         return '|'.join(['ConcRun', 'got=' + rec['outcome'], ','.join(paths), ','.join(arg_features(rec))])
     if exp.get('readonly') and rec['ev'] == 'Query':
         return '|'.join(['Query', 'got=' + rec['outcome'], ','.join(paths), ','.join(arg_features(rec))])
